@@ -164,7 +164,8 @@ C04_passOnly(t) == (Betting(t) /\ CurOK(t)) =>
 FirstToAct(t) ==
   IF t.round = "preflop" /\ BBSeats(t) # {} THEN NextSeat(t, CHOOSE b \in BBSeats(t) : TRUE)
   ELSE NextSeat(t, CHOOSE d \in Dealers(t) : TRUE)
-C04_first(g, t, o) == (~Betting(g) /\ Betting(t) /\ Dealers(t) # {}) => t.cur = FirstToAct(t)
+\* (before the flop with no seat holding the big blind the statement names nobody: left open - the no-bb pass plays such layouts)
+C04_first(g, t, o) == (~Betting(g) /\ Betting(t) /\ Dealers(t) # {} /\ (t.round # "preflop" \/ BBSeats(t) # {})) => t.cur = FirstToAct(t)
 C04_clockwise(g, t, o) == (Betting(g) /\ Betting(t) /\ o.ok /\ t # g /\ CurOK(g)) =>
   (o.seat = g.cur /\ t.cur = NextSeat(g, g.cur))
 \* which calls must be refused (by another seat / not offered / wrong phase)
@@ -206,7 +207,15 @@ C06_singleThing(t) == (Started(t) /\ t.ev \in (WaitPoints \ {"RoundStarted"})) =
 \* (a hand that sits in a betting round with nobody offered anything waits for nothing a driver could do)
 C06_indicates(t) == Betting(t) => (CurOK(t) /\ t.P[t.cur].allowed # <<>>)
 StartAllowed(g) == g.n >= 2 /\ Dealers(g) # {} /\ (\A i \in Seats(g) : g.P[i].bankroll > 0) /\ Len(g.meta.deck) > 0
-C06_start(g, t, o) == (o.op = "Start" /\ ~Started(g)) => (o.ok <=> StartAllowed(g)) /\ (o.ok => Started(t)) /\ (~o.ok => t = g)
+\* "starts ONLY with ...": the four conditions are necessary for every layout; that they are also enough is demanded of the
+\* layouts every table produces (some seat holds the big blind) - the engine happens to accept a layout that names a dealer only
+\* (the no-bb pass plays such hands), but an engine that asked for more there would still start "only with" the four conditions
+HasBigBlindSeat(g) == \E i \in Seats(g) : Has(g, i, "bb")
+C06_start(g, t, o) == (o.op = "Start" /\ ~Started(g)) =>
+  /\ o.ok => StartAllowed(g)
+  /\ (StartAllowed(g) /\ HasBigBlindSeat(g)) => o.ok
+  /\ o.ok => Started(t)
+  /\ ~o.ok => t = g
 \* the single thing the hand is waiting for, performed: it succeeds and moves the hand on.  For bet and raise "that
 \* step" is an offered action of a LEGAL size (C11: "every offered action and every legal size"): a bet of a positive
 \* amount below the stack; in no-limit a raise to a level below the stack that lifts the wager to match by at least the
